@@ -37,7 +37,7 @@ def _alarm(*_a):
     raise Timeout()
 
 
-def with_watchdog(seconds: int, fn: Callable, *args):
+def _with_alarm(seconds: int, fn: Callable, *args):
     old = signal.signal(signal.SIGALRM, _alarm)
     signal.alarm(seconds)
     try:
@@ -45,6 +45,15 @@ def with_watchdog(seconds: int, fn: Callable, *args):
     finally:
         signal.alarm(0)
         signal.signal(signal.SIGALRM, old)
+
+
+def with_watchdog(seconds: int, fn: Callable, *args):
+    """Run fn under a watchdog.  A first timeout is retried once with a much longer limit: on a loaded machine a short
+    limit can expire although the call takes milliseconds, and a timeout must never be a false alarm."""
+    try:
+        return _with_alarm(seconds, fn, *args)
+    except Timeout:
+        return _with_alarm(max(60, 10 * seconds), fn, *args)
 
 
 def tparse(src: str):
